@@ -163,6 +163,12 @@ def run(prog, chk):
                        "get_more_chars re-bases all window pointers whenever it moves the data.  The arithmetic of per-fill "
                        "CR LF folding is value-level and not decided.")
     stale_pointer_rule(prog, chk)
+    r9 = chk.rule("R9-wide-copy-sizes-in-bytes", "every memcpy / memmove of the scan buffer (UChar elements) and of other wide objects has "
+                  "its size built with sizeof, every u_memcpy / u_memmove counts UChars: a token carried over a buffer move or "
+                  "enlargement arrives whole", primary=False, floor=15)
+    from .. import memrules as _mr
+    if _mr.wide_copy_sizes(prog, r9) < 15:
+        raise Broken("fewer than 15 memcpy-family calls found")
     r2 = chk.rule("R2-line-accounting", "every scan function that consumes an end-of-line character performs the HANDLE_EOL "
                   "accounting (over-length check, CR LF state, line += ..., column = 0) or un-reads it; both copies of the "
                   "accounting agree", floor=4)
